@@ -131,6 +131,8 @@ typedef struct {
     uint16_t suite;          /* 0 = default for kx/version */
     int      client_auth;    /* server requests+validates client cert */
     int      ocsp;           /* the client asks for a stapled OCSP response (status_request) */
+    const char *expected_name; /* the client passes this expected server name to matrixSslNewClientSession */
+    int      sni_ext;        /* the client builds a server_name extension for "localhost" with the hello-extension API and passes it */
     int      early_data;     /* 1.3 PSK: 1 = credential and server session allow early data; 2 = the credential allows it but the server SESSION disabled it (tls13SessionMaxEarlyData 0) */
     int      resume13;       /* TLS 1.3: world_init first runs a complete connection (server session with early data enabled when early_data != 0) so that the sessions under test resume with its NewSessionTicket */
     int      early_send;     /* the honest client sends one early-data record right after its ClientHello */
